@@ -348,7 +348,18 @@ pub fn run(rep: &mut Report) {
     // ordered pair of a menu of 114 dates - years mirrored about 1900 and about 0, leap / century / 400-year classes,
     // the far range - is built back to back, and the SECOND result must be the oracle's whatever was built first: a
     // constructor that keeps state between calls (a memo, a cursor into a table) shows here and nowhere else
-    sweep(rep, "c08.order", 1, |_, out| j_order(out));
+    {
+        let mut years: Vec<i64> = vec![];
+        for k in [0i64, 1, 4, 99, 100, 101, 399, 400, 401, 402, 500, 1000, 1899, 1900, 1901, 5000, 8099, 10_000, 20_000] {
+            years.push(1900 + k);
+            years.push(1900 - k);
+        }
+        years.sort();
+        years.dedup();
+        let menu: Vec<i64> = years.iter().flat_map(|y| [days1900(*y, 1, 1), days1900(*y, 3, 1), days1900(*y, 12, 31)]).collect();
+        let os = [TimeScale::TAI, TimeScale::UTC, TimeScale::GPST, TimeScale::ET];
+        crate::engine::order_pairs(rep, "c08.order", menu.len() as u64, |i, out| j_value(menu[i as usize], 43_200 * NS_S + 5, os[(i % 4) as usize], i % 5 == 0, out));
+    }
     // rejection product
     let days_ax: Vec<u8> = (0..=33).chain([255]).collect();
     let dims = [R_YEARS.len(), R_MONTHS.len(), days_ax.len(), R_HOURS.len(), R_MINUTES.len(), R_SECONDS.len(), R_NANOS.len()];
